@@ -414,7 +414,7 @@ def gen_case(rng, tier, stream=None):
             if r:
                 probe = rng.choice(r)
         c = rng.random()
-        scalar = probe is not None and (probe is None or isinstance(probe, dict) and ('i' in probe or 'b' in probe or 's' in probe))
+        scalar = isinstance(probe, dict) and ('i' in probe or 'b' in probe or 's' in probe)
         if c < 0.6 and scalar:
             tgt['key'] = fn('id_if', v=probe, n=tgt['id'])
         elif c < 0.75:
